@@ -70,7 +70,8 @@ def run_case(ctx, opts, ending, idx, pre_trace=False):
     if "coverage" in opts:
         args += ["--coverage", os.path.join(d, "cov")]
     if "profile" in opts:
-        args += ["--profile", "cProfile", "--profile-directory", d]
+        # the default profile directory is the current directory (the worker starts in the world's directory)
+        args += ["--profile", "cProfile"] + (["--profile-directory", d] if (idx % 2 and ending != "chdir") else [])
     if "buffer" in opts:
         args.append("--buffer")
     if ending == "stop":
@@ -114,7 +115,8 @@ def run(ctx):
     combos = [c for k in range(len(OPTS) + 1) for c in itertools.combinations(OPTS, k)]
     cases = [(c, e) for c in combos for e in ENDINGS]
     if ctx.quick():
-        cases = ctx.rng.sample(cases, 40) + [(tuple(OPTS), e) for e in ENDINGS]
+        cases = ctx.rng.sample(cases, 40) + [(tuple(OPTS), e) for e in ENDINGS] + \
+            [(("gc", "gcopt", "profile"), "chdir"), (("gc", "profile"), "chdir"), (("gcopt", "profile", "buffer"), "chdir")]
     with concurrent.futures.ThreadPoolExecutor(max_workers=10) as ex:
         results = list(ex.map(lambda a: run_case(ctx, a[1][0], a[1][1], a[0]), enumerate(cases)))
     queries = []
